@@ -18,6 +18,8 @@
 #include <stdlib.h>
 #include <string.h>
 #include <sys/types.h>
+#include <sys/uio.h>
+#include <sys/time.h>
 
 #ifndef V_MAXSZ
 #define V_MAXSZ ((size_t)1 << 40)   /* object sizes are below this by precondition of the specs */
